@@ -8,9 +8,13 @@ import (
 	"bufio"
 	"flag"
 	"fmt"
+	"io"
 	"math/rand"
 	"os"
 	"strings"
+
+	"github.com/coredhcp/coredhcp/logger"
+	"github.com/sirupsen/logrus"
 )
 
 type engine struct {
@@ -53,6 +57,10 @@ func main() {
 		fmt.Fprintln(os.Stderr, "unknown engine", name)
 		os.Exit(2)
 	}
+	// the server's log output is not part of the trace
+	lg := logger.GetLogger("harness")
+	lg.Logger.SetOutput(io.Discard)
+	lg.Logger.SetLevel(logrus.PanicLevel)
 	w := bufio.NewWriterSize(os.Stdout, 1<<16)
 	defer w.Flush()
 	c := &ctx{rng: rand.New(rand.NewSource(*seed)), n: *n, tier: *tier, out: w}
